@@ -5,7 +5,11 @@
    which wake-ups they delivered, what poll_next returned, whether the receiver's waker was woken.
 
    Events: reset | ins k | prod k | close k | fire k | rm k | spoll k res | poll woken parked |
-           ret res [k seq] | cancel | idle parked woken                                          *)
+           ret res [k seq] | cancel | idle parked woken | exhaust | livelock k polls
+   fire may carry stale=TRUE (the source woke an old clone of a waker: wakers may be woken spuriously, by
+   anyone, any number of times - tokio does it when readiness arrives between registration and re-check);
+   spoll pending may carry selfwake=TRUE (the stream woke its own waker before answering Pending, which is
+   how a runtime's cooperative budget makes a task yield).  Neither widens the bypass bound.      *)
 EXTENDS TraceCommon
 CONSTANT BypassSlack      \* layer-A bypass bound is BypassSlack * (number of live peers + 1)
 
@@ -36,10 +40,14 @@ TFire == Step("fire") /\ sig' = sig \cup {E.k} /\ UNCHANGED <<scen, prod, taken,
 TRm == Step("rm") /\ live' = live \ {E.k} /\ UNCHANGED <<scen, prod, taken, deliv, sig, wait>> /\ NoFlag
 TSpoll == Step("spoll") /\
    (CASE E.res = "item" -> taken' = Put(taken, E.k, Get(taken, E.k, 0) + 1) /\ sig' = sig \cup {E.k} /\ UNCHANGED live
-     [] E.res = "pending" -> sig' = sig \ {E.k} /\ UNCHANGED <<taken, live>>    \* now waits for its waker
+     [] E.res = "pending" -> sig' = (IF Fld(E, "selfwake", FALSE) THEN sig \cup {E.k} ELSE sig \ {E.k}) /\ UNCHANGED <<taken, live>>    \* now waits for its waker (a yielding stream has already woken it)
      [] OTHER -> live' = live \ {E.k} /\ UNCHANGED <<taken, sig>>)             \* end of stream
    /\ UNCHANGED <<scen, prod, deliv, wait>> /\ NoFlag
 TPoll == Step("poll") /\ UNCHANGED <<scen, prod, taken, deliv, live, sig, wait>> /\ NoFlag
+TExhaust == Step("exhaust") /\ UNCHANGED <<scen, prod, taken, deliv, live, sig, wait>> /\ NoFlag
+\* one call of poll_next polled self-waking (cooperatively yielding) streams thousands of times without returning to its caller:
+\* the receiver task never yields, nothing else on its thread runs, no message is delivered
+TLivelock == Step("livelock") /\ UNCHANGED <<scen, prod, taken, deliv, live, sig, wait>> /\ Flag("C06/fq-livelock-on-yielding-stream")
 TCancel == Step("cancel") /\ UNCHANGED <<scen, prod, taken, deliv, live, sig, wait>> /\ NoFlag
 
 \* every item a stream handed out during this poll must have been returned by it
@@ -68,7 +76,7 @@ TIdle == Step("idle") /\ UNCHANGED <<scen, prod, taken, deliv, live, sig, wait>>
    ELSE IF ~E.parked /\ \E k \in live : Readable(k) THEN NoFlag   \* receiver simply stopped polling (script end)
    ELSE NoFlag
 
-TNext == TReset \/ TIns \/ TProd \/ TClose \/ TFire \/ TRm \/ TSpoll \/ TPoll \/ TCancel \/ TRet \/ TIdle
+TNext == TReset \/ TIns \/ TProd \/ TClose \/ TFire \/ TRm \/ TSpoll \/ TPoll \/ TCancel \/ TRet \/ TIdle \/ TExhaust \/ TLivelock
 TSpec == TInit /\ [][TNext]_tvars
 Accepted == Consumed
 =============================================================================
